@@ -1164,6 +1164,9 @@ func (ex *Exec) builtin(b *ssa.Builtin, args []Value, cc *ssa.CallCommon, site s
 				ex.mon.frozenWrite(ex, s.O, site+" (append into spare capacity)", mkOr(neq...))
 			}
 			for i, v := range add {
+				if ex.mon.lockset != nil {
+					ex.mon.access(ex, s.O, &s.Arr[s.Off+s.Len+i], true, site)
+				}
 				s.Arr[s.Off+s.Len+i] = v
 			}
 			s.Len += len(add)
@@ -1196,6 +1199,12 @@ func (ex *Exec) builtin(b *ssa.Builtin, args []Value, cc *ssa.CallCommon, site s
 				tmp[i] = copyVal(s.Arr[s.Off+i])
 			}
 			for i := 0; i < n; i++ {
+				if ex.mon.lockset != nil {
+					ex.mon.access(ex, d.O, &d.Arr[d.Off+i], true, site)
+				}
+				if d.O != nil && d.O.Frozen {
+					ex.mon.frozenWrite(ex, d.O, site+" (copy)", ex.differs(d.Arr[d.Off+i], tmp[i]))
+				}
 				d.Arr[d.Off+i] = tmp[i]
 			}
 			return int64(n)
